@@ -1003,6 +1003,9 @@ func (ex *Exec) binop(op token.Token, x, y Val, xt types.Type) Val {
 		panic(engineError("bool op " + op.String()))
 	case Float:
 		b := y.(Float)
+		if a.U || b.U {
+			unsupported("arithmetic on a float parsed from symbolic digits")
+		}
 		switch op {
 		case token.ADD:
 			return fl(a.V+b.V, a.W)
